@@ -356,7 +356,7 @@ def model_configs():
     off = dict(learning_starts=4, buffer_size=40, batch_size=4, train_freq=1, gradient_steps=1)
     return [
         ("a2c-tuple-net-arch", "A2C", "discrete", lambda: dict(n_steps=4, policy_kwargs=dict(net_arch=(4, 4))), 0, "str", None, None),
-        ("a2c-gsde-after-learn", "A2C", "box", lambda: dict(n_steps=4, use_sde=True, sde_sample_freq=2, policy_kwargs=dict(net_arch=[4])), 16, "pathlib", None, None),
+        ("a2c-gsde-after-learn", "A2C", "box", lambda: dict(n_steps=4, use_sde=True, sde_sample_freq=2, policy_kwargs=dict(net_arch=[4])), 16, "pathlib", None, ["env"]),
         ("a2c-nested-tuple-kwargs", "A2C", "box", lambda: dict(n_steps=4, policy_kwargs=dict(net_arch={"pi": (4,), "vf": (4,)}, activation_fn=th.nn.ReLU)), 8, "bytesio", None, None),
         ("ppo-callable-schedules", "PPO", "discrete", lambda: dict(n_steps=8, batch_size=4, n_epochs=1, learning_rate=lambda p: 1e-3 * p, clip_range=lambda p: 0.1 + 0.1 * p,
                                                                  policy_kwargs=dict(net_arch=[4])), 16, "bytesio", None, None),
@@ -416,7 +416,8 @@ ON_POLICY, CONTINUOUS_ONLY = ("A2C", "PPO"), ("SAC", "TD3", "DDPG")
 def gen_model_spec(rng):
     """one whole-model configuration with unusual-but-legal hyper-parameter values (JSON-able, so it can be replayed)"""
     algo = rng.choice(["A2C", "PPO", "DQN", "SAC", "TD3", "DDPG"])
-    sp = {"algo": algo, "steps": rng.choice([0, 0, 12, 20]), "path": rng.choice(["str", "pathlib", "bytesio"]),
+    sp = {"algo": algo, "steps": rng.choice([0, 0, 12, 20]), "path": rng.choice(["str", "pathlib", "bytesio", "fileobj", "nested", "zipsuffix", "pathlib_zip"]),
+          "load_env": rng.random() < 0.3,
           "seed": rng.choice([None, 0, 7, 123]), "device": rng.choice(["cpu", "auto"]), "stats_window_size": rng.choice([100, 5, 1]),
           "learning_rate": rng.choice([0.001, 0.0005, "linear", "linear"]), "activation_fn": rng.choice([None, "ReLU", "Tanh", "ELU"]),
           "optimizer_kwargs": rng.choice([None, {"eps": 1e-5}, {"weight_decay": 0.01}]), "normalize_images": rng.choice([None, False]),
@@ -601,18 +602,28 @@ def _run_model(case, stage):
                 problems.append(("oracle-set-get-parameters-changes-model", "; ".join(diffs[:3])))
             # save / load through the requested kind of path (HerReplayBuffer needs the env at load time; load() then
             # documents that _last_obs is discarded to force a reset)
-            load_kw = {"env": DummyVecEnv([env_fn])} if env_kind == "her" else {}
+            load_kw = {"env": DummyVecEnv([env_fn])} if (env_kind == "her" or case.get("spec", {}).get("load_env")) else {}
             stage["at"] = "save"
-            if path_kind == "bytesio":
+            if path_kind == "fileobj":       # open binary file objects (BufferedWriter / BufferedReader)
+                p = os.path.join(d, "m")
+                with open(p + ".zip", "wb") as fh:
+                    model.save(fh, exclude=exclude, include=include)
+                stage["at"] = "load"
+                with open(p + ".zip", "rb") as fh:
+                    loaded = cls.load(fh, device=device, **load_kw)
+            elif path_kind == "bytesio":
                 target = io.BytesIO()
                 model.save(target, exclude=exclude, include=include)
                 target.seek(0)
                 stage["at"] = "load"
                 loaded = cls.load(target, device=device, **load_kw)
             else:
-                p = os.path.join(d, "m")
-                target = p if path_kind == "str" else pathlib.Path(p)
+                # "nested": the parent folders do not exist yet; "zipsuffix": the .zip suffix is written out; "pathlib_zip": pathlib with suffix
+                p = os.path.join(d, "sub", "dir", "m") if path_kind == "nested" else os.path.join(d, "m")
+                target = {"str": p, "nested": p, "zipsuffix": p + ".zip", "pathlib": pathlib.Path(p), "pathlib_zip": pathlib.Path(p + ".zip")}[path_kind]
                 model.save(target, exclude=exclude, include=include)
+                if not os.path.exists(p + ".zip"):
+                    problems.append(("oracle-save-path", f"save({target!r}) did not create {p}.zip"))
                 if case.get("legacy_net_arch") is not None:
                     # an archive written by SB3 < 1.8: net_arch = [dict(pi=..., vf=...)]; load() must still accept it and convert it
                     rewrite_archive_net_arch(p + ".zip", [case["legacy_net_arch"]])
@@ -648,8 +659,15 @@ def _run_model(case, stage):
             if not_runtime:
                 problems.append(("oracle-hyperparameter-not-saved", f"attributes left out of the archive by default although they are not run-time objects: {sorted(not_runtime)}"))
             out = []
+            if "env" in (include or []):
+                # an included env is a run-time object (load() re-seeds it): it must come back usable, its internals are not compared
+                skip |= {"env"}
+                if loaded.get_env() is None or loaded.get_env().num_envs != model.get_env().num_envs:
+                    problems.append(("oracle-included-env-not-restored", f"save(include=['env']) then load() gives env={loaded.get_env()!r}"))
             if load_kw:
-                skip |= {"_last_obs"}
+                skip |= {"_last_obs"}      # load(env=...) documents that _last_obs is dropped to force a reset
+                if loaded.get_env() is None or loaded.n_envs != 1:
+                    problems.append(("oracle-load-with-env", f"load(env=...) left env={loaded.get_env()!r} n_envs={loaded.n_envs}"))
             for k, v in model.__dict__.items():
                 if k in skip:
                     continue
@@ -667,7 +685,7 @@ def _run_model(case, stage):
             if out:
                 problems.append(("oracle-attribute-not-restored", "; ".join(out[:4])))
             # ---- which attributes are in the archive: Model.SaveLoad.excluded, evaluated in Coq, vs the real zip
-            if path_kind != "bytesio":
+            if path_kind not in ("bytesio",):
                 import zipfile
 
                 with zipfile.ZipFile(p + ".zip") as z:
@@ -742,6 +760,28 @@ def _run_model(case, stage):
                 outc.append("print_system_info=True printed nothing about the stored system")
             if outc:
                 problems.append(("oracle-load-custom-objects", "; ".join(outc[:3])))
+            # ---- load(..., gamma=...): keyword arguments replace stored attributes; a different policy_kwargs is refused; bad inputs are refused
+            outk = []
+            lk = cls.load(extra, device=device, gamma=0.25, **load_kw)
+            if lk.gamma != 0.25:
+                outk.append(f"load(gamma=0.25) gives gamma={lk.gamma!r}")
+            deep_same(model.get_parameters(), lk.get_parameters(), "get_parameters()", outk)
+            for bad, what in ((lambda: cls.load(extra, device=device, policy_kwargs={"net_arch": [3, 3, 3]}, **load_kw), "a different policy_kwargs"),
+                              (lambda: cls.load(extra, device=device, custom_objects=[1], **load_kw), "custom_objects that is not a dict")):
+                try:
+                    bad()
+                    outk.append(f"load with {what} was accepted")
+                except ValueError:
+                    pass
+            notzip = os.path.join(d, "notzip.zip")
+            open(notzip, "wb").write(b"not a zip file")
+            try:
+                cls.load(notzip, device=device)
+                outk.append("load of a file that is not a zip archive was accepted")
+            except ValueError:
+                pass
+            if outk:
+                problems.append(("oracle-load-keyword-arguments", "; ".join(outk[:3])))
             # ---- set_parameters(exact_match=False) with a partial dictionary: only the given objects change; exact_match=True refuses it
             other = cls(policy, DummyVecEnv([env_fn]), seed=(seed or 0) + 101, device=device, **kw())
             keep = copy.deepcopy(other.get_parameters())
@@ -756,6 +796,15 @@ def _run_model(case, stage):
                     pass
             other.set_parameters(part, exact_match=False)
             now = other.get_parameters()
+            # set_parameters(<path of an archive>): all parameters of the saved model
+            third = cls(policy, DummyVecEnv([env_fn]), seed=(seed or 0) + 202, device=device, **kw())
+            third.set_parameters(extra, exact_match=True, device=device)
+            deep_same(model.get_parameters(), third.get_parameters(), "set_parameters(path)", outp)
+            try:
+                third.set_parameters({"no.such.object": {}}, exact_match=False)
+                outp.append("set_parameters accepted an invalid object name")
+            except ValueError:
+                pass
             deep_same(part["policy"], now["policy"], "policy", outp)
             for k in keep:
                 if k != "policy" and not k.startswith("policy."):
